@@ -313,8 +313,15 @@ func (fv floatValue) ToString(b io.Writer, s px.FormatContext, g px.RDetect) {
 	case 's':
 		f.ApplyStringFlags(b, floatGFormat(defaultFormatS, float64(fv)), f.IsAlt())
 	case 'a', 'A':
-		// TODO: Implement this or list as limitation?
-		panic(s.UnsupportedFormat(fv.PType(), `dxXobBeEfgGaAsp`, f))
+		// the hexadecimal floating point format, C's %a, is Go's %x
+		hex := byte('x')
+		if f.FormatChar() == 'A' {
+			hex = 'X'
+		}
+		_, err := fmt.Fprintf(b, goFormat(f.ReplaceFormatChar(hex)), float64(fv))
+		if err != nil {
+			panic(err)
+		}
 	default:
 		panic(s.UnsupportedFormat(fv.PType(), `dxXobBeEfgGaAsp`, f))
 	}
